@@ -1302,7 +1302,11 @@ class ReaderExtractor:
                     return None
                 box = Box({v[0].member}, {num})
                 return [box] if isinstance(op, ast.Eq) else region_not([box])
-            vals = list(v) if isinstance(v, tuple) else [v]
+            if isinstance(v, dict) and isinstance(op, (ast.In, ast.NotIn)):
+                v = tuple(v.keys())          # membership in a table: its keys
+            vals = list(v) if isinstance(v, (tuple, list, set, frozenset)) else [v]
+            if any(isinstance(x, (dict, list, set)) for x in vals):
+                return None
             if lt.endswith(".tag_class"):
                 names = {x.member for x in vals if isinstance(x, EnumConst)}
                 if len(names) != len(vals):
